@@ -45,9 +45,16 @@ EXPLANATION = (
     'read is checked before the parse continues (CFG dominance), token payload guards, eval_cfg wrapper shape.  R4b: every enumerated path of '
     '_parse, abstracted to its sequence of reads / expectations / tests / recursive calls, is a sentence of the cfg grammar pinned by the '
     'project tests (trailing comma = malformed) and builds the production\'s IR from the right payloads.  '
-    'NOT decided: pointwise agreement with Cargo on concrete requirement x version strings; what the tokenizer does on concrete texts '
-    '(e.g. an alphanumeric pre-release identifier that starts with a digit is split by the digit branch); the search-loop idioms are '
-    'recognised by shape (other spellings end undecided); escapes inside cfg string literals.')
+    'Every function is first brought into one source-to-source normal form (module literal constants inlined, calls bound to signatures, walrus '
+    'and condition locals resolved, list-builder helpers inlined, m.groups()/named groups/lastgroup reduced to m.group(k)); a finding is reported '
+    'only when every statement and test of the judged region was classified (closed world), otherwise the rule is undecided.  Also decided: '
+    '`<=` with a pre-release bound keeps the version itself (next_ver drops the pre-release); a requirement without constraints still applies '
+    'the pre-release gate; the matcher reads the candidate only through SemVer(); the comparison core does not select results by comparator '
+    'identity; token boundaries inside the pre-release section (digit token + identifier token = one identifier) are rejoined or reported.  '
+    'NOT decided: pointwise agreement with Cargo on concrete requirement x version strings (e.g. Cargo\'s stricter same-version rule for '
+    'pre-release matching, pinned otherwise by the project tests); cfg name/value conflation of the Dict[str, str] configuration '
+    '(`cfg(target_os)` with target_os="linux"; `cfg(unix = "")`), which is a property of the representation, not of the evaluator; '
+    'search-loop / helper spellings outside the recognised normal forms (undecided); escapes inside cfg string literals.')
 ASSUMPTIONS = ['operator.lt/gt/le/ge/eq/ne, Python int/str/list comparison, str.startswith/endswith/strip/isdigit, any/all behave as documented',
                're alternation/finditer semantics as documented; group n is non-empty exactly when alternative n matched',
                'SemVer.specified_count ranges over 1..3 for a requirement; dataclasses generate positional constructors in field order']
@@ -118,25 +125,66 @@ def propagate(stmts: T.Sequence[ast.stmt], env: T.Optional[T.Dict[str, ast.AST]]
     return env, rest
 
 
-def resolved_conds(row: tables.Row) -> T.Optional[T.Dict[Atom, bool]]:
+def resolve_table(tab: tables.Table, opaque: T.Iterable[str] = (), fn: T.Optional[ast.FunctionDef] = None) -> tables.Table:
+    """Replace the tests of every row by their reaching-definition form (condition locals, hoisted sub-expressions); drop rows that
+    become contradictory."""
+    params = tables._param_map(fn) if fn is not None else {}
+    for r in list(tab.rows):
+        rc = resolved_conds(r, opaque, params)
+        if rc is None:
+            tab.rows.remove(r)
+        else:
+            r.conds = rc
+    return tab
+
+
+def resolved_conds(row: tables.Row, opaque: T.Iterable[str] = (), params: T.Optional[T.Dict[str, ast.AST]] = None) -> T.Optional[T.Dict[Atom, bool]]:
     """The tests of a row with every local replaced by its reaching definition *at the point of the test* (copy propagation along
     the path); None when two tests of the row then contradict each other."""
     env: T.Dict[str, ast.AST] = {}
     out: T.Dict[Atom, bool] = {}
     for ev in row.path.events:
         if ev.kind == 'stmt' and isinstance(ev.node, ast.stmt):
-            env, _ = propagate([ev.node], env)
+            env, _ = propagate([ev.node], env, opaque)
         elif ev.kind in ('iter', 'with') and ev.node is not None:
             for n in ast.walk(ev.node.target if ev.kind == 'iter' else ev.node):     # type: ignore[attr-defined]
                 if isinstance(n, ast.Name) and isinstance(n.ctx, ast.Store):
                     env.pop(n.id, None)
         elif ev.kind == 'cond':
-            a, pol = tables.canon(resolve(ev.node, env), True)     # type: ignore[arg-type]
+            e2 = resolve(ev.node, env)     # type: ignore[arg-type]
+            if params:
+                e2 = _Rename(params).visit(e2)     # parameters by position (ARG1, ARG2 ...), as in the table's outcomes
+            a, pol = tables.canon(e2, True)
             v = ev.val == pol
             if out.get(a, v) != v:
                 return None
             out[a] = v
     return out
+
+
+class _GroupNames(ast.NodeTransformer):
+    """`m.group('name')`, `m['name']`, `m[k]`  ->  `m.group(k)` (names resolved through the folded regex)."""
+
+    def __init__(self, m: str, gindex: T.Dict[str, int]):
+        self.m, self.gindex = m, gindex
+
+    def _call(self, k: int, node: ast.AST) -> ast.AST:
+        call = ast.Call(func=ast.Attribute(value=ast.Name(id=self.m, ctx=ast.Load()), attr='group', ctx=ast.Load()), args=[ast.Constant(k)], keywords=[])
+        return ast.fix_missing_locations(ast.copy_location(call, node))
+
+    def visit_Call(self, node: ast.Call) -> ast.AST:
+        self.generic_visit(node)
+        if norm(node.func) == f'{self.m}.group' and len(node.args) == 1 and isinstance(node.args[0], ast.Constant) and node.args[0].value in self.gindex:
+            return self._call(self.gindex[node.args[0].value], node)
+        return node
+
+    def visit_Subscript(self, node: ast.Subscript) -> ast.AST:
+        self.generic_visit(node)
+        if norm(node.value) == self.m and isinstance(node.slice, ast.Constant) and isinstance(node.ctx, ast.Load):
+            k = self.gindex.get(node.slice.value, node.slice.value if isinstance(node.slice.value, int) else None)
+            if isinstance(k, int):
+                return self._call(k, node)
+        return node
 
 
 class _GroupsUnpack(ast.NodeTransformer):
@@ -179,6 +227,119 @@ def is_const(e: ast.AST) -> bool:
         return True
     except Exception:
         return False
+
+
+
+# ------------------------------------------------------------------------------------------ source-to-source normal form
+class _NormalForm(ast.NodeTransformer):
+    """One normal form per function, applied before any table is extracted (catalogue kinds A1, B2, C3, C6):
+    * module-level literal constants are inlined (`_PREFIX = 'cfg('`), `len('lit')` is folded;
+    * calls of functions of the same module / methods of the same class are rewritten to positional arguments by signature;
+    * `if (x := e):` becomes `x = e; if x:`;
+    * a boolean local that is defined once and used once, in the next test, is substituted into it."""
+
+    def __init__(self, mod: Module, fn: ast.FunctionDef, cls: T.Optional[str]):
+        self.mod, self.cls = mod, cls
+        self.locals = {n.id for n in ast.walk(fn) if isinstance(n, ast.Name) and isinstance(n.ctx, (ast.Store, ast.Del))} | \
+            {a.arg for a in ast.walk(fn) if isinstance(a, ast.arg)}
+
+    def visit_Name(self, n: ast.Name) -> ast.AST:
+        if isinstance(n.ctx, ast.Load) and n.id not in self.locals and self.mod.has_assign(n.id) and not self.mod.has_func(n.id) and not self.mod.has_cls(n.id):
+            v = self.mod.assign_value(n.id)
+            ndefs = sum(1 for st in ast.walk(self.mod.tree) if isinstance(st, (ast.Assign, ast.AnnAssign, ast.AugAssign))
+                        for t in (st.targets if isinstance(st, ast.Assign) else [st.target]) for x in ast.walk(t) if isinstance(x, ast.Name) and x.id == n.id)
+            if ndefs == 1 and isinstance(v, (ast.Constant, ast.Tuple, ast.Set)) and is_const(v):
+                return ast.copy_location(copy.deepcopy(v), n)
+        return n
+
+    def visit_Call(self, c: ast.Call) -> ast.AST:
+        self.generic_visit(c)
+        if norm(c.func) == 'len' and len(c.args) == 1 and isinstance(c.args[0], ast.Constant) and isinstance(c.args[0].value, (str, tuple)):
+            return ast.copy_location(ast.Constant(len(c.args[0].value)), c)
+        if not c.keywords:
+            return c
+        callee: T.Optional[ast.FunctionDef] = None
+        if isinstance(c.func, ast.Name) and c.func.id not in self.locals and self.mod.has_func(c.func.id):
+            callee = self.mod.func(c.func.id)     # type: ignore[assignment]
+        elif isinstance(c.func, ast.Attribute) and self.mod.has_cls('SemVer') and c.func.attr in self.mod.methods('SemVer') and not c.func.attr.startswith('__'):
+            callee = self.mod.methods('SemVer')[c.func.attr]     # type: ignore[assignment]
+        if callee is None:
+            return c
+        try:
+            b = bind_call(c, callee)
+        except Undecided:
+            return c
+        params = [a.arg for a in callee.args.posonlyargs + callee.args.args]
+        if params and params[0] in ('self', 'cls') and isinstance(c.func, ast.Attribute):
+            params = params[1:]
+        if callee.args.kwonlyargs:
+            return c
+        given = [pn for pn in params if pn in b and (b[pn] in c.args or any(k.value is b[pn] for k in c.keywords))]
+        if given != params[:len(given)]:
+            return c
+        return ast.copy_location(ast.Call(func=c.func, args=[b[pn] for pn in given], keywords=[]), c)
+
+    def _block(self, body: T.List[ast.stmt]) -> T.List[ast.stmt]:
+        out: T.List[ast.stmt] = []
+        for st in body:
+            # walrus in a test
+            if isinstance(st, (ast.If, ast.While)) and not isinstance(st, ast.While):
+                t = st.test
+                first = t.values[0] if isinstance(t, ast.BoolOp) else t
+                neg = isinstance(first, ast.UnaryOp) and isinstance(first.op, ast.Not)
+                core = first.operand if neg else first     # type: ignore[union-attr]
+                if isinstance(core, ast.NamedExpr) and isinstance(core.target, ast.Name):
+                    out.append(ast.copy_location(ast.Assign(targets=[ast.Name(id=core.target.id, ctx=ast.Store())], value=core.value), st))
+                    repl: ast.expr = ast.Name(id=core.target.id, ctx=ast.Load())
+                    if neg:
+                        repl = ast.UnaryOp(op=ast.Not(), operand=repl)
+                    if isinstance(t, ast.BoolOp):
+                        t.values[0] = repl
+                    else:
+                        st.test = repl
+            out.append(st)
+        # boolean local used once, in the test that follows
+        i = 0
+        while i + 1 < len(out):
+            a, b = out[i], out[i + 1]
+            if isinstance(a, ast.Assign) and len(a.targets) == 1 and isinstance(a.targets[0], ast.Name) and isinstance(a.value, (ast.BoolOp, ast.Compare, ast.UnaryOp)) \
+                    and isinstance(b, (ast.If, ast.Return)):
+                name = a.targets[0].id
+                uses = [n for n in ast.walk(self.root) if isinstance(n, ast.Name) and n.id == name]
+                site = b.test if isinstance(b, ast.If) else b.value
+                here = [n for n in ast.walk(site) if isinstance(n, ast.Name) and n.id == name] if site is not None else []
+                if len(uses) == 2 and len(here) == 1:
+                    new = _Rename({name: a.value}).visit(site)
+                    if isinstance(b, ast.If):
+                        b.test = new
+                    else:
+                        b.value = new
+                    del out[i]
+                    continue
+            i += 1
+        return out
+
+    def generic_visit(self, node: ast.AST) -> ast.AST:
+        super().generic_visit(node)
+        for fld in ('body', 'orelse', 'finalbody'):
+            v = getattr(node, fld, None)
+            if isinstance(v, list) and v and isinstance(v[0], ast.stmt):
+                setattr(node, fld, self._block(v))
+        return node
+
+
+_NF_CACHE: T.Dict[T.Tuple[str, str], ast.FunctionDef] = {}
+
+
+def nf(mod: Module, q: str) -> ast.FunctionDef:
+    """The anchored function in normal form (cached per module digest)."""
+    key = (mod.digest + mod.rel, q)
+    if key not in _NF_CACHE:
+        fn = copy.deepcopy(mod.func(q))
+        t = _NormalForm(mod, fn, q.split('.')[0] if '.' in q else None)     # type: ignore[arg-type]
+        t.root = fn     # type: ignore[attr-defined]
+        _NF_CACHE[key] = ast.fix_missing_locations(t.visit(fn))
+    return _NF_CACHE[key]
 
 
 # =====================================================================================================
@@ -225,6 +386,8 @@ def _text_atom(ctx: RuleCtx, mod: Module, a: Atom, var: str) -> T.Tuple[T.Callab
         cs = _folded(ctx, mod, expr_of(a.args[1]))
         if k is not None and isinstance(cs, (tuple, set, list, frozenset)):
             return (lambda t: t[:k] in cs), strs(cs)
+        if a.args[0] == var and isinstance(cs, (tuple, set, list, frozenset)):
+            return (lambda t: t in cs), []
     raise Undecided(f'split: atom outside the prefix/suffix vocabulary: {a!r}')
 
 
@@ -258,9 +421,21 @@ def _head_upto(e: ast.AST, var: str) -> T.Optional[int]:
     return None
 
 
+def yields_of(stmts: T.Sequence[ast.stmt], opaque: T.Iterable[str]) -> T.List[ast.AST]:
+    """Yielded expressions of a row with locals resolved (a pair bound to a name first is the pair)."""
+    out: T.List[ast.AST] = []
+    env: T.Dict[str, ast.AST] = {}
+    for st in stmts:
+        if isinstance(st, ast.Expr) and isinstance(st.value, ast.Yield) and st.value.value is not None:
+            out.append(resolve(st.value.value, env))
+        else:
+            env, _ = propagate([st], env, opaque)
+    return out
+
+
 def r1_split(ctx: RuleCtx) -> None:
     mod = ctx.repo.module(VERSION)
-    fn = mod.func('split')
+    fn = nf(mod, 'split')
     loops = [s for s in fn.body if isinstance(s, ast.For)]
     if len(loops) != 1 or not isinstance(loops[0].target, ast.Name):
         raise Undecided('split: expected one loop over the comma separated parts')
@@ -277,7 +452,7 @@ def r1_split(ctx: RuleCtx) -> None:
     if not ok_iter:
         raise Undecided(f'split: the parts are produced by `{short(loop.iter)}`, not by <requirement>.split(\',\'): a form this rule does not read')
     ctx.ok('split: the requirement is cut at commas')
-    tab = tables.extract(fn, body=loop.body, effects=eff, inline=False, name='split:loop')
+    tab = resolve_table(tables.extract(fn, body=loop.body, effects=eff, inline=False, name='split:loop'), opaque=[var, src])
     preds: T.Dict[Atom, T.Callable[[str], bool]] = {}
     # the prefixes the table itself tests, plus the documented operators
     heads: T.Set[str] = set(OPS) | {''}
@@ -305,7 +480,7 @@ def r1_split(ctx: RuleCtx) -> None:
         for s0 in stmts[1:]:
             if not (isinstance(s0, (ast.Assign, ast.AnnAssign)) or (isinstance(s0, ast.Expr) and isinstance(s0.value, ast.Yield))):
                 raise Undecided(f'split: the row for a part like {text!r} contains `{short(s0)}`, which may produce or change the result in a form this rule does not read')
-        ys = [s.value.value for s in stmts if isinstance(s, ast.Expr) and isinstance(s.value, ast.Yield)]
+        ys = yields_of(stmts[1:], [var, src])
         ops = [o for o in sorted(OPS, key=len, reverse=True) if text.startswith(o)]
         if text == '*':
             ctx.require(not ys, 'split: a bare * yields nothing', mod, 'split', node, f'a bare `*` part yields {[norm(y) for y in ys]}; Cargo: `*` matches everything (no constraint)', node)
@@ -336,6 +511,105 @@ def r1_split(ctx: RuleCtx) -> None:
 # =====================================================================================================
 # R1b  cargo_parse: per-operator rows
 # =====================================================================================================
+
+class _Rename(ast.NodeTransformer):
+    def __init__(self, names: T.Dict[str, ast.AST]):
+        self.names = names
+
+    def visit_Name(self, n: ast.Name) -> ast.AST:
+        if n.id in self.names:
+            r = copy.deepcopy(self.names[n.id])
+            if isinstance(r, ast.Name):
+                return ast.Name(id=r.id, ctx=n.ctx)
+            if isinstance(n.ctx, ast.Load):
+                return r
+            raise Undecided(f'helper parameter {n.id} is rebound')
+        return n
+
+
+def bind_call(call: ast.Call, f: ast.FunctionDef) -> T.Dict[str, ast.AST]:
+    """Bind the arguments of a call to the parameters of the callee (positional or keyword, defaults filled in)."""
+    if f.args.vararg or f.args.kwarg or any(isinstance(a, ast.Starred) for a in call.args) or any(k.arg is None for k in call.keywords):
+        raise Undecided(f'call {short(call)} cannot be bound to the signature of {f.name}')
+    params = [a.arg for a in f.args.posonlyargs + f.args.args]
+    if params and params[0] in ('self', 'cls') and isinstance(call.func, ast.Attribute):
+        params = params[1:]
+    out: T.Dict[str, ast.AST] = {}
+    if len(call.args) > len(params):
+        raise Undecided(f'call {short(call)} has too many arguments for {f.name}')
+    for pn, a in zip(params, call.args):
+        out[pn] = a
+    for k in call.keywords:
+        if k.arg not in params + [a.arg for a in f.args.kwonlyargs] or k.arg in out:
+            raise Undecided(f'call {short(call)}: keyword {k.arg} does not fit {f.name}')
+        out[k.arg] = k.value     # type: ignore[index]
+    defaults = dict(zip(params[len(params) - len(f.args.defaults):], f.args.defaults))
+    defaults.update({a.arg: d for a, d in zip(f.args.kwonlyargs, f.args.kw_defaults) if d is not None})
+    for pn in params + [a.arg for a in f.args.kwonlyargs]:
+        if pn not in out:
+            if pn not in defaults:
+                raise Undecided(f'call {short(call)} leaves parameter {pn} of {f.name} unbound')
+            out[pn] = defaults[pn]
+    return out
+
+
+def inline_list_builders(mod: Module, body: T.List[ast.stmt], OUT: str, depth: int = 0) -> T.List[ast.stmt]:
+    """Normal form for an extracted block (catalogue E1/D7): `OUT += H(a, b)` / `OUT.extend(H(a, b))` where H is a module-level
+    function that only *builds and returns one list* (L = []; L.append/extend/+= ...; return L at the end) or a generator of the
+    elements is replaced by H's body with the parameters bound by signature and L renamed to OUT.  Other shapes are left alone."""
+    out: T.List[ast.stmt] = []
+    for st in body:
+        call = None
+        if isinstance(st, ast.AugAssign) and isinstance(st.op, ast.Add) and norm(st.target) == OUT:
+            call = st.value
+        elif isinstance(st, ast.Expr) and isinstance(st.value, ast.Call) and norm(st.value.func) == f'{OUT}.extend' and len(st.value.args) == 1:
+            call = st.value.args[0]
+        if isinstance(call, ast.Call) and norm(call.func) in ('list', 'tuple') and len(call.args) == 1:
+            call = call.args[0]
+        if not (isinstance(call, ast.Call) and isinstance(call.func, ast.Name) and mod.has_func(call.func.id)) or depth > 2:
+            for fld in ('body', 'orelse'):
+                if isinstance(getattr(st, fld, None), list) and not isinstance(st, (ast.FunctionDef, ast.ClassDef)):
+                    st = copy.copy(st)
+                    setattr(st, fld, inline_list_builders(mod, getattr(st, fld), OUT, depth))
+            out.append(st)
+            continue
+        h = nf(mod, call.func.id)
+        bound = bind_call(call, h)
+        hbody = [x for x in h.body if not (isinstance(x, ast.Expr) and isinstance(x.value, ast.Constant))]
+        stores = {n.id for x in hbody for n in ast.walk(x) if isinstance(n, ast.Name) and isinstance(n.ctx, ast.Store)}
+        if stores & set(bound) or any(isinstance(n, (ast.FunctionDef, ast.Lambda, ast.Global, ast.Nonlocal)) for x in hbody for n in ast.walk(x)):
+            out.append(st)
+            continue
+        rets = [n for x in hbody for n in ast.walk(x) if isinstance(n, ast.Return)]
+        yields = [n for x in hbody for n in ast.walk(x) if isinstance(n, (ast.Yield, ast.YieldFrom))]
+        names: T.Dict[str, ast.AST] = dict(bound)
+        if yields and not any(isinstance(y, ast.YieldFrom) for y in yields) and all(r.value is None for r in rets) and not rets:
+            new = copy.deepcopy(hbody)
+
+            class Y(ast.NodeTransformer):
+                def visit_Expr(self, n: ast.Expr) -> ast.AST:
+                    if isinstance(n.value, ast.Yield) and n.value.value is not None:
+                        return ast.copy_location(ast.Expr(value=ast.Call(func=ast.Attribute(value=ast.Name(id=OUT, ctx=ast.Load()), attr='append', ctx=ast.Load()),
+                                                                         args=[n.value.value], keywords=[])), n)
+                    return n
+            new = [Y().visit(x) for x in new]
+        elif len(rets) == 1 and hbody and hbody[-1] is rets[0] and isinstance(rets[0].value, ast.Name) and not yields:
+            L = rets[0].value.id
+            inits = [x for x in hbody if isinstance(x, (ast.Assign, ast.AnnAssign)) and norm(x.targets[0] if isinstance(x, ast.Assign) else x.target) == L]
+            if len(inits) != 1 or inits[0] is not hbody[0] or not (isinstance(inits[0].value, ast.List) and not inits[0].value.elts):
+                out.append(st)
+                continue
+            new = copy.deepcopy(hbody[1:-1])
+            names[L] = ast.Name(id=OUT, ctx=ast.Load())
+        else:
+            out.append(st)
+            continue
+        for loc in stores - set(names):
+            names[loc] = ast.Name(id=f'{h.name}__{loc}', ctx=ast.Load())
+        new = [ast.fix_missing_locations(_Rename(names).visit(x)) for x in new]
+        out.extend(inline_list_builders(mod, new, OUT, depth + 1))
+    return out
+
 
 class _SearchLoops(ast.NodeTransformer):
     """Rewrite the search idiom  `for I in range(N): if VEC[I] != 0: break  else: I = D`  into the symbolic
@@ -437,8 +711,12 @@ def _req_atom(a: Atom, sem: str, n: int, pat: T.Tuple[int, ...]) -> bool:
     raise Undecided(f'cargo_parse: atom outside the vocabulary: {a!r}')
 
 
-def _ref_constraints(op: str, n: int, pat: T.Tuple[int, ...]) -> T.List[T.Tuple[str, T.Any]]:
-    """A.17: operator -> (comparator, bound); 'V' = the version itself, ('bump', k) = next_ver(k)."""
+def _ref_constraints(op: str, n: int, pat: T.Tuple[int, ...], pre: bool = False) -> T.List[T.Tuple[str, T.Any]]:
+    """A.17: operator -> (comparator, bound); 'V' = the version itself, ('bump', k) = next_ver(k).
+    `<= V` may be turned into `< next_ver(last specified)` only for a release V: next_ver drops the pre-release, so for
+    `<= 1.0.0-rc.1` the bump would admit 1.0.0 and 1.0.0-rc.2; there the bound is V itself."""
+    if op == '<=' and pre:
+        return [('le', 'V')]
     if op == '<=':
         return [('lt', ('bump', n - 1))]
     if op == '~':
@@ -459,7 +737,7 @@ def _req_classes() -> T.List[T.Tuple[int, T.Tuple[int, ...]]]:
 
 def r1_cargo_parse(ctx: RuleCtx) -> None:
     mod = ctx.repo.module(VERSION)
-    fn = mod.func('cargo_parse')
+    fn = nf(mod, 'cargo_parse')
     param = fn.args.args[0].arg
     loops = [s for s in fn.body if isinstance(s, ast.For)]
     if len(loops) != 1:
@@ -490,7 +768,8 @@ def r1_cargo_parse(ctx: RuleCtx) -> None:
     OUT, ACC = outs[0], accs[0]
     ctx.ok(f'cargo_parse: constraint list `{OUT}` starts empty, pre-release flag `{ACC}` ' + ('is the disjunction of has_prerelease over the appended bounds' if derived_flag else 'starts False'))
     rw = _SearchLoops()
-    body = [rw.visit(copy.deepcopy(s)) for s in loop.body]
+    body = inline_list_builders(mod, [copy.deepcopy(s) for s in loop.body], OUT)     # an extracted ladder is read in place
+    body = [rw.visit(s) for s in body]
     tab = tables.extract(fn, body=body, effects=eff, inline=False, name='cargo_parse:loop')
     semdef = f'SemVer({vervar})'
     # classify atoms: tests of the operator are decided per operator class (== constant, membership in a folded constant set / table)
@@ -522,13 +801,19 @@ def r1_cargo_parse(ctx: RuleCtx) -> None:
         raise Undecided(f'cargo_parse: `x = SemVer({vervar})` not found in the loop body')
     HP = Atom('truth', (f'{semvar}.has_prerelease',))
     has_hp = HP in tab.atoms()
+    HP2 = None     # reserved: other spellings of the test are outside the vocabulary (-> Undecided in _req_atom)
     for op in OPS:
         bad: T.Optional[T.Tuple[ast.AST, str]] = None
+        bad_pre: T.Optional[T.Tuple[ast.AST, str]] = None
         nw = 0
-        for (n, pat), hp in itertools.product(_req_classes(), (True, False) if has_hp else (None,)):
+        for (n, pat), hp in itertools.product(_req_classes(), (False, True)):
+            if hp and n < 3:
+                continue     # a requirement with a pre-release names all three components
             world: T.Dict[Atom, bool] = {a: p(op) for a, p in op_atoms.items()}
             if has_hp:
                 world[HP] = bool(hp)
+            elif HP2 is not None:
+                world[HP2] = bool(hp)
             rows = []
             for r in tab.rows:
                 if any(world.get(a) != v for a, v in r.conds.items() if a in world):
@@ -539,7 +824,7 @@ def r1_cargo_parse(ctx: RuleCtx) -> None:
                 raise Undecided(f'cargo_parse: {len(rows)} rows fire for operator {op!r}, {n} specified component(s), zero pattern {pat}')
             row = rows[0]
             nw += 1
-            env, rest = propagate(stmts_of(row))
+            env, rest = propagate(stmts_of(row), opaque=[OUT])
             node = row.path.events[-1].node if row.path.events else loop
             got: T.List[T.Tuple[str, T.Any]] = []
             shape_bad = None
@@ -558,6 +843,17 @@ def r1_cargo_parse(ctx: RuleCtx) -> None:
                         pairs.extend(st.value.elts)
                     else:
                         raise Undecided(f'cargo_parse: the constraint list is changed by `{short(st)}`, a form this rule does not read')
+                elif isinstance(st, ast.Assign) and norm(st.targets[0]) == OUT:
+                    # OUT = OUT + [a, b]   /   OUT = [*OUT, a, b]
+                    v = st.value
+                    if isinstance(v, ast.BinOp) and isinstance(v.op, ast.Add) and norm(v.left) == OUT and isinstance(v.right, (ast.List, ast.Tuple)) \
+                            and not any(isinstance(x, ast.Starred) for x in v.right.elts):
+                        pairs.extend(v.right.elts)
+                    elif isinstance(v, ast.List) and v.elts and isinstance(v.elts[0], ast.Starred) and norm(v.elts[0].value) == OUT \
+                            and not any(isinstance(x, ast.Starred) for x in v.elts[1:]):
+                        pairs.extend(v.elts[1:])
+                    else:
+                        raise Undecided(f'cargo_parse: the constraint list is rebound by `{short(st)}`, a form this rule does not read')
                 elif OUT in names_in(st) and not (isinstance(st, ast.Assign) and OUT not in {n.id for t in st.targets for n in ast.walk(t) if isinstance(n, ast.Name)}):
                     raise Undecided(f'cargo_parse: the constraint list is used by `{short(st)}`, a form this rule does not read')
             for pair in pairs:
@@ -594,13 +890,16 @@ def r1_cargo_parse(ctx: RuleCtx) -> None:
                     got.append((cmpname, ('bump', den[1])))
                 else:
                     shape_bad = f'bound {short(pair.elts[1])} is neither the version nor next_ver(index)'
-            want = _ref_constraints(op, n, pat)
-            if op == '<=' and got == [('lt', ('bump', 'specified_count - 1'))]:
+            want = _ref_constraints(op, n, pat, bool(hp))
+            if op == '<=' and not hp and got == [('lt', ('bump', 'specified_count - 1'))]:
                 want = list(got)     # the reference index *is* the expression `specified_count - 1` (a constant n - 1 per class is accepted as well)
-            desc = f'{op}{".".join("x" if b else "0" for b in pat[:n])}'
+            desc = f'{op}{".".join("x" if b else "0" for b in pat[:n])}{"-pre" if hp else ""}'
             if shape_bad and bad is None:
                 bad = (node, f'requirement like `{desc}`: {shape_bad}')
-            elif sorted(got, key=repr) != sorted(want, key=repr) and bad is None:
+            elif sorted(got, key=repr) != sorted(want, key=repr) and hp and op == '<=' and bad_pre is None:
+                bad_pre = (node, f'requirement like `{desc}` (a pre-release bound): the row appends {got}; next_ver() drops the pre-release, so `<= 1.0.0-rc.1` becomes '
+                                 f'`< 1.0.1` and accepts 1.0.0 and 1.0.0-rc.2; the bound must be the version itself: {want} [V = the version, (bump, k) = next_ver(k)]')
+            elif sorted(got, key=repr) != sorted(want, key=repr) and not (hp and op == '<=') and bad is None:
                 bad = (node, f'requirement like `{desc}` ({n} specified component(s)): the row appends {got}; the Cargo table (A.17) requires {want} '
                              f'[V = the version, (bump, k) = next_ver(k)]')
             # the pre-release flag is sticky: flag = flag or V.has_prerelease on every row
@@ -622,6 +921,10 @@ def r1_cargo_parse(ctx: RuleCtx) -> None:
             ctx.ok(f'cargo_parse: operator {op}: {nw} classes (specified components x zero pattern{" x has_prerelease" if has_hp else ""}) append exactly the constraints of A.17; flag sticky')
         else:
             ctx.violation(mod, 'cargo_parse', f'operator {op} :: {norm(bad[0])}', bad[1], bad[0])
+        if bad_pre is not None:
+            ctx.violation(mod, 'cargo_parse', f'operator {op} with a pre-release bound', bad_pre[1], bad_pre[0])
+        elif op == '<=':
+            ctx.ok('cargo_parse: operator <= with a pre-release bound keeps the version itself as bound')
     _matcher(ctx, mod, fn, post, OUT, ACC)
 
 
@@ -637,11 +940,25 @@ def _matcher(ctx: RuleCtx, mod: Module, fn: ast.FunctionDef, post: T.List[ast.st
         if r.outcome[0] != 'return':
             raise Undecided(f'cargo_parse: result row {r!r}')
         e = expr_of(r.outcome[1])
-        if r.conds.get(empty_atom) is False:
-            ok = isinstance(e, ast.Lambda) and isinstance(e.body, ast.Constant) and e.body.value is True and len(e.args.args) == 1
-            ctx.require(ok, 'cargo_parse: no constraint (empty or *) -> a predicate that is always True', mod, 'cargo_parse', e,
-                        f'with no constraint the result is `{short(e)}`; Cargo: an empty / `*` requirement matches every version', r.path.events[-1].node)
-        else:
+        if r.conds.get(empty_atom) is False or empty_atom not in r.conds:
+            # no constraint (empty or `*`): every release, but - as for any requirement that names no pre-release - no pre-release
+            if isinstance(e, ast.Name) and e.id in defs:
+                cmp_fn = cmp_fn or defs[e.id]
+                ctx.ok('cargo_parse: no constraint (empty or *) -> the same matcher (gate applies, no comparison left)')
+            elif isinstance(e, ast.Lambda) and len(e.args.args) == 1 and norm(e.body) in (f'not SemVer({e.args.args[0].arg}).has_prerelease',):
+                ctx.ok('cargo_parse: no constraint (empty or *) -> every release, no pre-release')
+            elif isinstance(e, ast.Lambda) and isinstance(e.body, ast.Constant):
+                if e.body.value is True:
+                    ctx.violation(mod, 'cargo_parse', 'no constraint: pre-release accepted', f'with no constraint (empty requirement or `*`) the result is `{short(e)}`: it also accepts '
+                                  f'pre-releases (cargo_parse("*")("1.0.0-alpha") is True); a requirement that names no pre-release never matches one (Cargo: `*` does not)', r.path.events[-1].node)
+                else:
+                    ctx.violation(mod, 'cargo_parse', f'no constraint :: {norm(e)}', f'with no constraint the result is `{short(e)}`; Cargo: an empty / `*` requirement matches every release',
+                                  r.path.events[-1].node)
+            else:
+                raise Undecided(f'cargo_parse: with no constraint the result is `{short(e)}`, a form this rule does not read')
+            if empty_atom in r.conds:
+                continue
+        if True:
             if not (isinstance(e, ast.Name) and e.id in defs):
                 raise Undecided(f'cargo_parse: with constraints the result is {short(e)}, not a nested function')
             cmp_fn = defs[e.id]
@@ -657,16 +974,30 @@ def _matcher(ctx: RuleCtx, mod: Module, fn: ast.FunctionDef, post: T.List[ast.st
     L = lhs[0]
     roles: T.Dict[Atom, str] = {}
     for a in t2.atoms():
-        if a == Atom('truth', (f'{L}.has_prerelease',)):
+        texts = [x.replace('SemVer(ARG1)', L) for x in a.args if isinstance(x, str) and x not in ('eq', 'lt')]
+        if a.kind == 'truth' and texts == [f'{L}.has_prerelease']:
             roles[a] = 'pre'
         elif a == Atom('truth', (ACC,)):
             roles[a] = 'acc'
+        elif any('ARG1' in names_in(expr_of(x)) for x in texts):
+            # must-flow-through: the candidate text reaches a decision only as SemVer(candidate)
+            ctx.violation(mod, qn, f'decision on the raw candidate text: {a!r}', f'the matcher decides `{a!r}` on the raw version text instead of the parsed SemVer: build metadata '
+                          f'("1.0.0+build-1"), white space and the section marker are only understood by SemVer() (the gate must be `SemVer(candidate).has_prerelease`)', cmp_fn)
+            return
         elif a.kind == 'truth':
             e = expr_of(a.args[0])
             comp = None
-            if isinstance(e, ast.Call) and norm(e.func) == 'all' and len(e.args) == 1 and isinstance(e.args[0], (ast.ListComp, ast.GeneratorExp)) and len(e.args[0].generators) == 1:
+            negated = False
+            if isinstance(e, ast.Call) and norm(e.func) in ('all', 'any') and len(e.args) == 1 and isinstance(e.args[0], (ast.ListComp, ast.GeneratorExp)) and len(e.args[0].generators) == 1 \
+                    and not e.args[0].generators[0].ifs:
                 comp = e.args[0].generators[0]
                 call = e.args[0].elt
+                if norm(e.func) == 'any':
+                    # any(not cmp(lhs, b) ...) is the negation of all(cmp(lhs, b) ...)
+                    if not (isinstance(call, ast.UnaryOp) and isinstance(call.op, ast.Not)):
+                        raise Undecided(f'{qn}: atom {a!r}')
+                    call = call.operand
+                    negated = True
             else:
                 fl = [s for s in cmp_fn.body if isinstance(s, ast.For)]
                 if len(fl) == 1:
@@ -677,7 +1008,7 @@ def _matcher(ctx: RuleCtx, mod: Module, fn: ast.FunctionDef, post: T.List[ast.st
                 raise Undecided(f'{qn}: atom {a!r} is not a comparison of the candidate with an appended pair of `{OUT}`')
             f, b = norm(tgt.elts[0]), norm(tgt.elts[1])
             if norm(call.func) == f and [norm(x) for x in call.args] == [L, b]:
-                roles[a] = 'call'
+                roles[a] = 'ncall' if negated else 'call'
             elif norm(call.func) == f and [norm(x) for x in call.args] == [b, L]:
                 ctx.violation(mod, qn, call, f'the matcher evaluates `{short(call)}`: operands swapped - the pairs are (comparator, bound) and the candidate version '
                               f'must be the left operand (`>= 1.2` would accept exactly the versions <= 1.2)', cmp_fn)
@@ -690,6 +1021,8 @@ def _matcher(ctx: RuleCtx, mod: Module, fn: ast.FunctionDef, post: T.List[ast.st
     nrows = 0
     for r in t2.rows:
         v = {roles[a]: val for a, val in r.conds.items()}
+        if 'ncall' in v:
+            v['call'] = not v.pop('ncall')
         if r.outcome[0] != 'return' or r.outcome[1] not in ('True', 'False'):
             raise Undecided(f'{qn}: row {r!r}')
         gotv = r.outcome[1] == 'True'
@@ -702,7 +1035,7 @@ def _matcher(ctx: RuleCtx, mod: Module, fn: ast.FunctionDef, post: T.List[ast.st
             if gotv != want and bad is None:
                 bad = (r, f'candidate pre-release={pre}, a constraint names a pre-release={acc}, comparison result={v.get("call", "no constraint left")}: '
                           f'the matcher returns {gotv}, expected {want}')
-    if 'call' not in roles.values():
+    if 'call' not in roles.values() and 'ncall' not in roles.values():
         raise Undecided(f'{qn}: no comparison of the candidate with the appended pairs is visible in this function (delegated to a helper?)')
     if bad is None:
         ctx.ok(f'{qn}: {len(t2.rows)} rows: pre-release candidates need a pre-release constraint (gate), every pair must hold (conjunction), candidate is the left operand')
@@ -719,6 +1052,12 @@ def _first_three(e: ast.AST) -> T.Optional[str]:
     """'copy3' when e is a fresh list of the first three components of self._v; 'alias' / 'copyall' for the
     two recognisable wrong shapes; None otherwise."""
     inner = e.args[0] if isinstance(e, ast.Call) and norm(e.func) == 'list' and len(e.args) == 1 else e
+    if isinstance(e, ast.List) and len(e.elts) == 1 and isinstance(e.elts[0], ast.Starred):
+        inner = e.elts[0].value                    # [*self._v[:3]]
+    if isinstance(e, ast.Call) and isinstance(e.func, ast.Attribute) and e.func.attr == 'copy' and not e.args:
+        inner = e.func.value                       # self._v[:3].copy()
+    if isinstance(inner, ast.Subscript) and isinstance(inner.value, ast.Call) and norm(inner.value) == 'list(self._v)':
+        inner = ast.Subscript(value=inner.value.args[0], slice=inner.slice, ctx=ast.Load())     # list(self._v)[:3]
     if isinstance(inner, ast.Subscript) and norm(inner.value) == 'self._v' and isinstance(inner.slice, ast.Slice) and inner.slice.step is None:
         lo, up = inner.slice.lower, inner.slice.upper
         if (lo is None or (isinstance(lo, ast.Constant) and lo.value == 0)) and isinstance(up, ast.Constant):
@@ -732,13 +1071,20 @@ def _first_three(e: ast.AST) -> T.Optional[str]:
 
 def r1_next_ver(ctx: RuleCtx) -> None:
     mod = ctx.repo.module(VERSION)
-    fn = mod.func('SemVer.next_ver')
+    fn = nf(mod, 'SemVer.next_ver')
     idx = fn.args.args[1].arg
     rets = [s for s in walk_no_nested(fn) if isinstance(s, ast.Return)]
-    if len(rets) != 1 or not (isinstance(rets[0].value, ast.Call) and norm(rets[0].value.func) == 'SemVer' and len(rets[0].value.args) == 1
-                               and isinstance(rets[0].value.args[0], ast.Name)):
+    retv = rets[0].value if len(rets) == 1 else None
+    extra_known: T.List[ast.stmt] = []
+    if isinstance(retv, ast.Name):
+        # `result = SemVer(v); return result`
+        rdefs = [s for s in walk_no_nested(fn) if isinstance(s, ast.Assign) and norm(s.targets[0]) == retv.id]
+        if len(rdefs) == 1:
+            retv = rdefs[0].value
+            extra_known.append(rdefs[0])
+    if not (isinstance(retv, ast.Call) and norm(retv.func) in ('SemVer', 'type(self)', 'self.__class__') and len(retv.args) == 1 and isinstance(retv.args[0], ast.Name) and not retv.keywords):
         raise Undecided('next_ver: expected a single `return SemVer(<local list>)`')
-    V = rets[0].value.args[0].id
+    V = retv.args[0].id
     defs = [s for s in walk_no_nested(fn) if isinstance(s, ast.Assign) and norm(s.targets[0]) == V]
     if len(defs) != 1:
         raise Undecided(f'next_ver: {len(defs)} definitions of {V}')
@@ -756,12 +1102,15 @@ def r1_next_ver(ctx: RuleCtx) -> None:
         for st in rest:
             if isinstance(st, ast.Assign) and isinstance(st.targets[0], ast.Subscript) and norm(st.targets[0]) == f'{V}[ARG1]':
                 bumps.add(norm(st.value).replace('ARG1', idx))
+            elif isinstance(st, ast.AugAssign) and norm(st.target) == f'{V}[ARG1]':
+                bumps.add(f'{V}[{idx}] {dict(Add="+", Sub="-", Mult="*").get(st.op.__class__.__name__, "?")} {norm(st.value)}')
     cell = f'{V}[{idx}]'
     # statements of next_ver that this rule does not account for: with any of them present an *absence* is not provable
-    known = [defs[0], rets[0]]
+    known = [defs[0], rets[0]] + extra_known
     unread = [st for st in fn.body if st not in known and not isinstance(st, (ast.Assert, ast.For)) and not (isinstance(st, ast.Expr) and isinstance(st.value, ast.Constant))
               and not (isinstance(st, ast.Assign) and isinstance(st.targets[0], ast.Name) and norm(st.value) in (f'{V}[{idx}]',))
-              and not (isinstance(st, ast.Assign) and norm(st.targets[0]) == f'{V}[{idx}]')]
+              and not (isinstance(st, ast.Assign) and norm(st.targets[0]) == f'{V}[{idx}]')
+              and not (isinstance(st, ast.AugAssign) and norm(st.target) == f'{V}[{idx}]')]
     if not bumps and unread:
         raise Undecided(f'next_ver: no `{V}[{idx}] = ...` found and `{short(unread[0])}` is not read by this rule')
     ok = bumps and bumps <= {f'{cell} + 1', f'1 + {cell}'}
@@ -773,17 +1122,25 @@ def r1_next_ver(ctx: RuleCtx) -> None:
         if isinstance(lp.target, ast.Name) and isinstance(lp.iter, ast.Call) and norm(lp.iter.func) == 'range' and len(lp.body) == 1 and not lp.orelse \
                 and isinstance(lp.body[0], ast.Assign) and norm(lp.body[0].targets[0]) == f'{V}[{lp.target.id}]':
             zero = lp
+    slice_zero = [st for st in unread if isinstance(st, ast.Assign) and norm(st.targets[0]) in (f'{V}[{idx} + 1:]', f'{V}[1 + {idx}:]', f'{V}[{idx} + 1:3]')]
+    if zero is None and len(slice_zero) == 1 and len(unread) == 1 and not loops:
+        val = norm(slice_zero[0].value)
+        if val in (f'[0] * (2 - {idx})', f'[0] * (3 - ({idx} + 1))', f'[0] * (3 - {idx} - 1)'):
+            ctx.ok(f'next_ver: components {idx}+1..2 are set to 0 by one slice assignment ({norm(slice_zero[0])})')
+            zero = 'slice'     # type: ignore[assignment]
+        else:
+            raise Undecided(f'next_ver: `{norm(slice_zero[0])}` may zero the lower components in a form this rule does not read')
     if zero is None and (unread or [lp for lp in loops]):
         raise Undecided(f'next_ver: the lower components may be zeroed by `{short((unread or loops)[0])}`, a form this rule does not read')
     if zero is None:
         ctx.violation(mod, 'SemVer.next_ver', 'lower components are zeroed', f'no loop `for i in range({idx} + 1, 3): {V}[i] = 0` found: bumping minor must reset patch (1.2.3 -> 1.3.0)', fn)
-    else:
+    elif zero != 'slice':
         rargs = [norm(a) for a in zero.iter.args]     # type: ignore[attr-defined]
         ok = rargs in ([f'{idx} + 1', '3'], [f'1 + {idx}', '3']) and norm(zero.body[0].value) == '0'     # type: ignore[attr-defined]
         ctx.require(ok, f'next_ver: components {idx}+1..2 are set to 0', mod, 'SemVer.next_ver', zero,
                     f'the zeroing loop is `for {zero.target.id} in range({", ".join(rargs)}): {norm(zero.body[0])}`; expected range({idx} + 1, 3) and the value 0', zero)     # type: ignore[attr-defined]
     # has_prerelease: slot 3 == -1
-    hp = mod.func('SemVer.has_prerelease')
+    hp = nf(mod, 'SemVer.has_prerelease')
     hrets = [s for s in walk_no_nested(hp) if isinstance(s, ast.Return)]
     if len(hrets) != 1 or hrets[0].value is None:
         raise Undecided('has_prerelease: expected one return')
@@ -791,7 +1148,7 @@ def r1_next_ver(ctx: RuleCtx) -> None:
     ok = a.kind == 'cmp' and a.args[0] == 'eq' and pol is True and {a.args[1], a.args[2]} == {'self._v[3]', '-1'}
     ctx.require(ok, 'has_prerelease: slot 3 == -1', mod, 'SemVer.has_prerelease', hrets[0], f'has_prerelease returns `{norm(hrets[0].value)}`; the marker of a pre-release is _v[3] == -1', hrets[0])
     # list constructor + final padding: _v = list(in_) padded with 0 up to four slots (slot 3 = 0: release); count = min(3, len)
-    init = mod.func('SemVer.__init__')
+    init = nf(mod, 'SemVer.__init__')
     inp = init.args.args[1].arg
     top = [s for s in init.body if isinstance(s, ast.If)]
     if len(top) != 1:
@@ -808,7 +1165,10 @@ def r1_next_ver(ctx: RuleCtx) -> None:
         if 'self._v' not in stores:
             continue
         nrow += 1
-        ok = stores.get('self._v') == 'list(ARG1)' and stores.get('self.specified_count') in ('min(3, len(ARG1))', 'min(len(ARG1), 3)')
+        ok = stores.get('self._v') in ('list(ARG1)', '[*ARG1]', 'ARG1[:]', 'ARG1.copy()', 'list(ARG1[:])') \
+            and stores.get('self.specified_count') in ('min(3, len(ARG1))', 'min(len(ARG1), 3)')
+        if not ok and not (stores.get('self._v', '').startswith(('list(', '[', 'ARG1')) and 'min(' in stores.get('self.specified_count', '')):
+            raise Undecided(f'SemVer(list): the constructor stores {stores}, a form this rule does not read')
         ctx.require(ok, 'SemVer(list): _v = list(input), specified_count = min(3, len(input))', mod, 'SemVer.__init__', 'list constructor',
                     f'the list constructor stores {stores}', top[0])
     ctx.floor('SemVer(list) rows', nrow, 1)
@@ -836,11 +1196,57 @@ def r1_next_ver(ctx: RuleCtx) -> None:
 # R2  SemVer ordering structure
 # =====================================================================================================
 
+def _comparator_dispatch(ctx: RuleCtx, mod: Module, core: str) -> None:
+    """A result of the core that *selects by the identity of the comparator* (`x if comparator is operator.gt else y`) instead of applying
+    it: decided by enumerating the finite domain the source declares - the four operators the dunders pass - against the kind rule
+    (numeric below alphanumeric): when the kinds differ, < and <= hold iff ours is the int, > and >= iff theirs is."""
+    name, fn = cmpcore.core_method(mod, 'SemVer', core)
+    loops = [x for x in fn.body if isinstance(x, ast.For)]
+    if len(loops) != 1 or not (isinstance(loops[0].iter, ast.Call) and norm(loops[0].iter.func) == 'zip' and isinstance(loops[0].target, ast.Tuple) and len(loops[0].target.elts) == 2):
+        return
+    lp = loops[0]
+    side = {}
+    for t, a in zip(lp.target.elts, lp.iter.args):
+        side[norm(t)] = 'ours' if 'self' in names_in(a) else 'theirs'
+    if sorted(side.values()) != ['ours', 'theirs']:
+        return
+    tab = tables.extract(fn, body=lp.body, name=f'SemVer.{name}:loop')
+    for r in tab.rows:
+        if r.outcome[0] != 'return':
+            continue
+        e = expr_of(r.outcome[1])
+        ident = {a: v for a, v in r.conds.items() if a.kind == 'is' and a.args[1].startswith('operator.') and a.args[0].startswith('ARG')}
+        if not ident and not (isinstance(e, ast.IfExp) and 'operator.' in norm(e.test)):
+            continue
+        differ = any(a.kind == 'cmp' and a.args[0] == 'eq' and v is False and all(x.startswith('isinstance(') for x in a.args[1:]) for a, v in r.conds.items())
+        if not differ:
+            raise Undecided(f'SemVer.{name}: result `{short(e)}` selects by comparator identity outside the kind test')
+        for op in cmpcore.DUNDER_OP.values():
+            if any((a.args[1] == f'operator.{op}') != v for a, v in ident.items()):
+                continue     # this row is not taken for that operator
+            leaf: ast.AST = e
+            while isinstance(leaf, ast.IfExp):
+                a, pol = tables.canon(leaf.test, True)
+                if not (a.kind == 'is' and a.args[1].startswith('operator.') and a.args[0].startswith('ARG')):
+                    raise Undecided(f'SemVer.{name}: comparator test {a!r}')
+                leaf = leaf.body if ((a.args[1] == f'operator.{op}') == pol) else leaf.orelse
+            if isinstance(leaf, ast.Call) and norm(leaf.func).startswith('ARG'):
+                continue     # the comparator is applied: judged by the ranking-key rule
+            m = _re.fullmatch(r'isinstance\((\w+), int\)', norm(leaf))
+            if m is None or m.group(1) not in side:
+                raise Undecided(f'SemVer.{name}: result `{short(leaf)}` for operator.{op} is not a kind flag')
+            want = 'ours' if op in ('lt', 'le') else 'theirs'
+            ctx.require(side[m.group(1)] == want, f'SemVer.{name}: kinds differ, operator.{op}: result is "{want} is the numeric one"', mod, f'SemVer.{name}', r.path.events[-1].node,
+                        f'when one component is numeric and the other alphanumeric the core returns `{norm(leaf)}` for operator.{op}; SemVer (numeric below alphanumeric) requires '
+                        f'"{want} is the int" (e.g. 1.0.0-1 {dict(lt="<", le="<=", gt=">", ge=">=")[op]} 1.0.0-alpha)', r.path.events[-1].node)
+
+
 def r2_core(ctx: RuleCtx) -> None:
     mod = ctx.repo.module(VERSION)
     core = cmpcore.one_core(ctx, mod, 'SemVer')
     if core is None:
         return
+    _comparator_dispatch(ctx, mod, core)
     keys = cmpcore.ranking_keys(ctx, mod, 'SemVer', core)
     want = [('isinstance(@, int)', 'desc'), ('@', 'asc'), ('len(@)', 'asc')]
     ctx.require(keys == want, f'SemVer ranking keys {keys}', mod, f'SemVer.{core}', 'ranking keys',
@@ -984,7 +1390,7 @@ def _guarded_int(e: ast.AST, core: str) -> bool:
 
 def r2_tokens(ctx: RuleCtx) -> None:
     mod = ctx.repo.module(VERSION)
-    init = mod.func('SemVer.__init__')
+    init = nf(mod, 'SemVer.__init__')
     facts = _tok_language(ctx, mod)
     def tok_loops(f: ast.AST) -> T.List[ast.For]:
         return [s for s in ast.walk(f) if isinstance(s, ast.For) and isinstance(s.iter, ast.Call) and isinstance(s.iter.func, ast.Attribute) and s.iter.func.attr == 'finditer']
@@ -1034,14 +1440,31 @@ def r2_tokens(ctx: RuleCtx) -> None:
     ctx.require([norm(a) for a in loop.iter.args] == [inp], 'the tokenizer runs over the whole input text', mod, hq, loop.iter,     # type: ignore[attr-defined]
                 f'finditer is applied to {[norm(a) for a in loop.iter.args]}, not to the input')     # type: ignore[attr-defined]
     # `a, b, c = m.groups()` is the same binding as three m.group(k) reads
+    gindex = dict(_re.compile(facts['pattern']).groupindex)     # group name -> number (constant regex folded from source)
     body = [_GroupsUnpack(m).visit(copy.deepcopy(st)) for st in loop.body]
     body = [x for st in body for x in (st if isinstance(st, list) else [st])]
+    body = [_GroupNames(m, gindex).visit(st) for st in body]     # m.group('num') / m['num'] / m[1]  ->  m.group(1)
     tab = tables.extract(host, body=body, effects=eff, inline=False, name=f'{hq}:token')
+
+    def gnorm(a: Atom) -> Atom:
+        """`m.lastgroup == 'name'` / `m.lastindex == k`: each alternative is one non-empty group, so this is "group k matched"."""
+        if a.kind == 'cmp' and a.args[0] == 'eq' and a.args[1] in (f'{m}.lastgroup', f'{m}.lastindex') and is_const(expr_of(a.args[2])):
+            cst = const_of(expr_of(a.args[2]))
+            k = gindex.get(cst) if a.args[1].endswith('lastgroup') else cst
+            if k in (1, 2, 3):
+                return Atom('truth', (f'{m}.group({k})',))
+        return a
     # tests are read with the locals resolved by their reaching definition on the row (a group bound to a name first, a stripped identifier)
     rconds: T.Dict[int, T.Dict[Atom, bool]] = {}
     for r in list(tab.rows):
-        rc = resolved_conds(r)
-        if rc is None:
+        rc0 = resolved_conds(r)
+        rc: T.Optional[T.Dict[Atom, bool]] = {}
+        for a0, v0 in (rc0 or {}).items():
+            if rc is not None and rc.get(gnorm(a0), v0) != v0:
+                rc = None
+            elif rc is not None:
+                rc[gnorm(a0)] = v0
+        if rc0 is None or rc is None:
             tab.rows.remove(r)      # contradictory after resolution: not a path
         else:
             rconds[id(r)] = rc
@@ -1085,14 +1508,33 @@ def r2_tokens(ctx: RuleCtx) -> None:
                 return ev.node
         return r.path.events[-1].node if r.path.events else loop
     n_rows = {'digit': 0, 'ident': 0, 'build': 0}
+    def known_atom(a: Atom) -> bool:
+        if a in G.values() or a == PRE or a in counts or a in pads:
+            return True
+        g2 = f'{m}.group(2)'
+        if a.kind == 'truth':
+            t = a.args[0]
+            return t.startswith(g2) and (t == g2 or t[len(g2):].startswith(('[', '.startswith(', '.isdigit()', '.isdecimal()')))
+        if a.kind == 'cmp' and a.args[0] == 'eq':
+            return a.args[1].startswith(g2) and is_const(expr_of(a.args[2]))
+        return False
     for r in tab.rows:
         c = rconds[id(r)]
         node = node_of(r)
+        unknown = [a for a in c if not known_atom(a)]
+        if unknown:
+            raise Undecided(f'{hq}: the token loop tests {[repr(a) for a in unknown]}, outside the vocabulary of this rule (group matched / pre-release state / count < 3 / '
+                            f'padding / section-marker strip / isdigit)')
         if c.get(G[1]) is True:
             # ---- numeric token
             n_rows['digit'] += 1
             app = [norm(x) for x in appended(r)]
             incs = [s for s in stmts_of(r) if isinstance(s, ast.AugAssign) and norm(s.target) == count]
+            for s0 in stmts_of(r):     # `count = count + 1` is the same increment
+                if isinstance(s0, ast.Assign) and norm(s0.targets[0]) == count and norm(s0.value) in (f'{count} + 1', f'1 + {count}'):
+                    incs.append(ast.AugAssign(target=s0.targets[0], op=ast.Add(), value=ast.Constant(1)))
+                elif isinstance(s0, ast.Assign) and norm(s0.targets[0]) == count:
+                    raise Undecided(f'{hq}: the component count is rebound by `{short(s0)}`, a form this rule does not read')
             if c.get(PRE) is True:
                 ctx.require(app == [f'int({m}.group(1))'] and not incs, 'digit token inside the pre-release section: appended as int, not counted as a release component', mod,
                             hq, f'digit token, pre-release :: {norm(node)}', f'row `{r!r}` appends {app} and changes the count {len(incs)} time(s); expected [int({m}.group(1))] and no count change', node)
@@ -1176,9 +1618,39 @@ def r2_tokens(ctx: RuleCtx) -> None:
             n_rows['build'] += 1
             ctx.require(r.outcome == ('break',) and not appended(r), 'build metadata token stops tokenisation', mod, hq, f'build token :: {norm(node)}',
                         f'row `{r!r}` leaves by {r.outcome} after appending {[norm(x) for x in appended(r)]}; "+build" must end the scan (break) without storing anything', node)
-    ctx.floor('tokenizer rows: digit', n_rows['digit'], 3)
-    ctx.floor('tokenizer rows: identifier', n_rows['ident'], 3)
+    ctx.floor('tokenizer rows: digit', n_rows['digit'], 1)
+    ctx.floor('tokenizer rows: identifier', n_rows['ident'], 1)
     ctx.floor('tokenizer rows: build', n_rows['build'], 1)
+    # token boundaries vs identifier boundaries: inside the pre-release section a digit token directly followed by an identifier token is ONE
+    # alphanumeric identifier (0a, 1-2: SemVer section 9).  The alternation always cuts there (digit branch first, language facts above), so
+    # the loop has to rejoin them; it can only do so by reading match positions or by carrying the previous token over.
+    w = rx.intersects(facts['digits'][:-1] + facts['ident'][1:], r'([0-9]+[A-Za-z][0-9A-Za-z-]*)')
+    if w is not None:
+        if any(x in facts['pattern'] for x in ('(?=', '(?!', '(?<')):
+            raise Undecided('_SEMVER_TOK_RE uses look-around, which sa.rx over-approximates: token boundaries are not decided')
+        uses = {n.attr for n in ast.walk(ast.Module(body=body, type_ignores=[])) if isinstance(n, ast.Attribute) and norm(n.value) == m}
+        other_m = [n for n in ast.walk(ast.Module(body=body, type_ignores=[])) if isinstance(n, ast.Name) and n.id == m and isinstance(n.ctx, ast.Load)]
+        carried = set()
+        for r in tab.rows:
+            seen_store: T.Set[str] = set()
+            for ev in r.path.events:
+                if ev.node is None:
+                    continue
+                for n in ast.walk(ev.node):
+                    if isinstance(n, ast.Name) and isinstance(n.ctx, ast.Load) and n.id not in seen_store:
+                        carried.add(n.id)
+                for n in ast.walk(ev.node):
+                    if isinstance(n, ast.Name) and isinstance(n.ctx, ast.Store):
+                        seen_store.add(n.id)
+        stored = {n.id for st in body for n in ast.walk(st) if isinstance(n, ast.Name) and isinstance(n.ctx, ast.Store)}
+        state = (carried & stored) - {pre, count, vec}
+        if not uses <= {'group', 'groups', 'lastgroup', 'lastindex'} or len(other_m) != sum(1 for n in ast.walk(ast.Module(body=body, type_ignores=[])) if isinstance(n, ast.Attribute) and norm(n.value) == m) or state:
+            raise Undecided(f'{hq}: the token loop reads {sorted(uses - {"group", "groups", "lastgroup", "lastindex"})} of the match / carries {sorted(state)} between tokens: '
+                            f'it may rejoin adjacent tokens in a form this rule does not read')
+        ctx.violation(mod, 'SemVer.__init__', 'alphanumeric identifier starting with digits is split into two tokens',     # keyed on the constructor wherever the loop lives
+                      f'inside the pre-release section the text {w!r} is ONE alphanumeric SemVer identifier, but _SEMVER_TOK_RE {facts["pattern"]!r} cuts it into a digit token and an '
+                      f'identifier token, and the loop stores them as two identifiers (it never reads match positions nor keeps the previous token): '
+                      f'SemVer("1.0.0-alpha.0a")._v is [1, 0, 0, -1, "alpha", 0, "a"] and 1.0.0-alpha.0a > 1.0.0-alpha.1 is False (alphanumeric must rank above numeric)', loop)
 
 
 # =====================================================================================================
@@ -1280,9 +1752,9 @@ def _short_circuit_loop(fn: ast.FunctionDef, loops: T.List[ast.AST], fields: T.L
 
 def _eval_arms(mod: Module) -> T.Dict[str, T.Tuple[str, T.Optional[ast.AST]]]:
     """class -> (denoting construct found | 'missing' | description of something else, node)"""
-    fn = mod.func('_eval_cfg')
+    fn = nf(mod, '_eval_cfg')
     ircls = _ir_classes(mod)
-    tab = tables.extract(fn, bool_returns=True, name='_eval_cfg')
+    tab = resolve_table(tables.extract(fn, bool_returns=True, name='_eval_cfg'), fn=fn)
     me = fn.name
     out: T.Dict[str, T.Tuple[str, T.Optional[ast.AST]]] = {}
     inst = [a for a in tab.atoms() if a.kind == 'isinstance']
@@ -1322,22 +1794,39 @@ def _eval_arms(mod: Module) -> T.Dict[str, T.Tuple[str, T.Optional[ast.AST]]]:
             continue
         f = [x[0] for x in info['fields']]
         ann = dict(info['fields'])
-        found = f'`{"" if pol else "not "}{atom!r}`'
-        if atom == Atom('in', (f'ARG1.{f[0]}', 'ARG2')) and pol and len(f) == 1:
-            found = 'in'
-        elif atom.kind == 'cmp' and atom.args[0] == 'eq' and pol and len(f) == 2 and ann[f[0]] in ircls and ann[f[1]] in ircls:
-            lf, rf = ircls[ann[f[0]]]['fields'][0][0], ircls[ann[f[1]]]['fields'][0][0]
-            if {atom.args[1], atom.args[2]} == {f'ARG2.get(ARG1.{f[0]}.{lf})', f'ARG1.{f[1]}.{rf}'}:
-                found = 'get =='
-        elif atom.kind == 'truth' and len(f) == 1:
+        # only shapes that are *understood* may be judged: anything else is unreadable (-> Undecided), never a finding
+        found = f'unreadable: `{"" if pol else "not "}{atom!r}`'
+
+        def of_ir(t: str) -> bool:
+            return t == 'ARG1' or t.startswith('ARG1.')
+        if atom.kind == 'in' and atom.args[1] == 'ARG2' and of_ir(atom.args[0]) and pol:
+            found = 'in' if len(f) == 1 and atom.args[0] == f'ARG1.{f[0]}' else f'`{atom.args[0]} in <configuration>`'
+        elif atom.kind == 'cmp' and atom.args[0] == 'eq' and pol:
+            gets = [x for x in atom.args[1:] if x.startswith('ARG2.get(') and x.endswith(')') and of_ir(x[9:-1])]
+            rest = [x for x in atom.args[1:] if x not in gets]
+            if len(gets) == 1 and len(rest) == 1 and of_ir(rest[0]):
+                found = f'`<configuration>.get({gets[0][9:-1]}) == {rest[0]}`'
+                if len(f) == 2 and ann[f[0]] in ircls and ann[f[1]] in ircls:
+                    lf, rf = ircls[ann[f[0]]]['fields'][0][0], ircls[ann[f[1]]]['fields'][0][0]
+                    if gets[0] == f'ARG2.get(ARG1.{f[0]}.{lf})' and rest[0] == f'ARG1.{f[1]}.{rf}':
+                        found = 'get =='
+        elif atom.kind == 'truth':
             e = expr_of(atom.args[0])
-            if isinstance(e, ast.Call) and norm(e.func) == me and [norm(x) for x in e.args] == [f'ARG1.{f[0]}', 'ARG2']:
-                found = 'not' if not pol else 'identity'
+            if isinstance(e, ast.Call) and norm(e.func) == 'bool' and len(e.args) == 1:
+                e = e.args[0]
+            if isinstance(e, ast.Call) and norm(e.func) == me and len(e.args) == 2 and of_ir(norm(e.args[0])) and norm(e.args[1]) == 'ARG2':
+                if len(f) == 1 and norm(e.args[0]) == f'ARG1.{f[0]}':
+                    found = 'not' if not pol else 'identity'
+            elif isinstance(e, ast.Call) and norm(e.func) == 'ARG2.get' and len(e.args) == 1 and of_ir(norm(e.args[0])) and pol:
+                found = f'`truthiness of <configuration>.get({norm(e.args[0])})`'
             elif isinstance(e, ast.Call) and norm(e.func) in ('any', 'all') and pol and len(e.args) == 1 and isinstance(e.args[0], (ast.GeneratorExp, ast.ListComp)) \
                     and len(e.args[0].generators) == 1 and not e.args[0].generators[0].ifs and isinstance(e.args[0].generators[0].target, ast.Name):
                 g = e.args[0].generators[0]
-                if norm(g.iter) == f'ARG1.{f[0]}' and norm(e.args[0].elt) == f'{me}({g.target.id}, ARG2)':     # type: ignore[attr-defined]
-                    found = norm(e.func)
+                if norm(e.args[0].elt) == f'{me}({g.target.id}, ARG2)' and len(f) == 1:     # type: ignore[attr-defined]
+                    if norm(g.iter) == f'ARG1.{f[0]}':
+                        found = norm(e.func)
+                    elif isinstance(g.iter, ast.Subscript) and norm(g.iter.value) == f'ARG1.{f[0]}':
+                        found = f'`{norm(e.func)}` over the part {norm(g.iter)} of the arguments'
         out[cname] = (found, node)
     return out
 
@@ -1345,7 +1834,7 @@ def _eval_arms(mod: Module) -> T.Dict[str, T.Tuple[str, T.Optional[ast.AST]]]:
 def r3_eval(ctx: RuleCtx) -> None:
     mod = ctx.repo.module(CFGPY)
     ircls = _ir_classes(mod)
-    built = _built_classes(mod, mod.func('_parse'), {k: None for k in ircls})     # type: ignore[arg-type]
+    built = _built_classes(mod, nf(mod, '_parse'), {k: None for k in ircls})     # type: ignore[arg-type]
     ctx.floor('IR classes built by _parse', len(built), 5)
     unknown = built - set(REF_DENOTATION)
     if unknown:
@@ -1400,7 +1889,7 @@ def _word_helpers(ctx: RuleCtx, mod: Module, body: T.List[ast.stmt], W: str) -> 
     for st in ast.walk(ast.Module(body=body, type_ignores=[])):
         if isinstance(st, ast.Assign) and isinstance(st.targets[0], ast.Name) and isinstance(st.value, ast.Call) and isinstance(st.value.func, ast.Name) \
                 and mod.has_func(st.value.func.id) and [norm(a) for a in st.value.args] == [W] and not st.value.keywords:
-            h = mod.func(st.value.func.id)
+            h = nf(mod, st.value.func.id)
             if len(h.args.args) != 1:
                 continue
             th = tables.extract(h, name=h.name)
@@ -1422,7 +1911,7 @@ def _word_helpers(ctx: RuleCtx, mod: Module, body: T.List[ast.stmt], W: str) -> 
 
 def _lexer_table(ctx: RuleCtx, mod: Module) -> T.Dict[str, str]:
     """Checks the decision table of the lexer loop body; returns keyword -> token member."""
-    fn = mod.func('lexer')
+    fn = nf(mod, 'lexer')
     raw = fn.args.args[0].arg
     loops = [s for s in fn.body if isinstance(s, ast.For)]
     if len(loops) != 1:
@@ -1434,7 +1923,8 @@ def _lexer_table(ctx: RuleCtx, mod: Module) -> T.Dict[str, str]:
     words = {norm(s.targets[0]) for s in ast.walk(loop) if isinstance(s, ast.Assign) and isinstance(s.value, ast.Subscript) and norm(s.value.value) == raw
              and isinstance(s.value.slice, ast.Slice) and norm(s.value.slice.upper) == I}
     flags = {norm(s.targets[0]) for s in ast.walk(loop) if isinstance(s, ast.Assign) and isinstance(s.value, ast.Constant) and s.value.value is True} & \
-        {norm(s.targets[0]) for s in ast.walk(loop) if isinstance(s, ast.Assign) and isinstance(s.value, ast.Constant) and s.value.value is False}
+        ({norm(s.target if isinstance(s, ast.AnnAssign) else s.targets[0]) for s in ast.walk(fn) if isinstance(s, (ast.Assign, ast.AnnAssign)) and isinstance(s.value, ast.Constant) and s.value.value is False} |
+         {norm(s.targets[0]) for s in ast.walk(loop) if isinstance(s, ast.Assign) and norm(s.value) == f'not {norm(s.targets[0])}'})
     if len(words) != 1 or len(flags) != 1:
         raise Undecided(f'lexer: word variable {sorted(words)} / in-string flag {sorted(flags)} not identifiable')
     W, F = words.pop(), flags.pop()
@@ -1462,8 +1952,8 @@ def _lexer_table(ctx: RuleCtx, mod: Module) -> T.Dict[str, str]:
             if not isinstance(cs, (dict, set, frozenset, tuple, list, str)):
                 raise Undecided(f'lexer: membership in {cs!r}')
             return (lambda s, w, f: s in cs) if a.args[0] == S else (lambda s, w, f: w in cs)
-        if a.kind == 'cmp' and a.args[0] == 'eq' and a.args[1] in (S, W) and is_const(expr_of(a.args[2])):
-            c = const_of(expr_of(a.args[2]))
+        if a.kind == 'cmp' and a.args[0] == 'eq' and a.args[1] in (S, W) and _is_folded(ctx, mod, expr_of(a.args[2])):
+            c = _folded(ctx, mod, expr_of(a.args[2]))
             return (lambda s, w, f: s == c) if a.args[1] == S else (lambda s, w, f: w == c)
         raise Undecided(f'lexer: atom outside the vocabulary: {a!r}')
     preds = {a: atom_pred(a) for a in tab.atoms()}
@@ -1499,6 +1989,8 @@ def _lexer_table(ctx: RuleCtx, mod: Module) -> T.Dict[str, str]:
                 raise Undecided(f'lexer: the row contains `{short(st)}`, which may produce tokens in a form this rule does not read')
         ys = [norm(table_lookup(st.value.value, s_cls, w_cls)) for st in sts if isinstance(st, ast.Expr) and isinstance(st.value, ast.Yield)]
         writes = {norm(st.targets[0]): norm(st.value) for st in sts if isinstance(st, ast.Assign) and norm(st.targets[0]) in (START, F)}
+        if writes.get(F) == f'not {F}':
+            writes[F] = str(not in_str)     # toggling the flag in a world where its value is known
         node = r.path.events[-1].node if r.path.events else loop
         desc = f'character {s_cls!r}, pending word {w_cls!r}, {"inside" if in_str else "outside"} a string literal'
         if in_str and s_cls != '"':
@@ -1596,7 +2088,7 @@ class _Expect:
         cands: T.Dict[str, ast.FunctionDef] = {st.name: st for st in inner.body if isinstance(st, ast.FunctionDef)}
         for c in ast.walk(inner):
             if isinstance(c, ast.Call) and isinstance(c.func, ast.Name) and c.func.id not in cands and c.func.id != inner.name and mod.has_func(c.func.id):
-                cands[c.func.id] = mod.func(c.func.id)     # type: ignore[assignment]
+                cands[c.func.id] = nf(mod, c.func.id)     # type: ignore[assignment]
         for name, f in cands.items():
             try:
                 tab = tables.extract(f, name=name)
@@ -1848,7 +2340,7 @@ def _match_production(tr: T.List[T.Tuple[T.Any, ...]], out: T.Tuple[T.Any, ...],
         subs: T.List[int] = []
         if take('lookany', rd, True) and take('look', 'RPAREN', rd, True):
             prod = 'all/any empty list'
-            if not take('read', None):
+            if not (take('read', None) or take('skip', None)):     # the look-ahead already identified it: a bare next() is as good
                 return prod, f'empty list: the `)` seen by the look-ahead is not consumed (found {fmt(peek())})'
         else:
             take('lookany', rd, False)
@@ -1917,7 +2409,7 @@ def _match_production(tr: T.List[T.Tuple[T.Any, ...]], out: T.Tuple[T.Any, ...],
 
 
 def _parse_analysis(ctx: RuleCtx, mod: Module, report: bool) -> T.Dict[str, T.Any]:
-    fn = mod.func('_parse')
+    fn = nf(mod, '_parse')
     paths = enumerate_paths(fn.body, unroll=2)
     tmap: T.Dict[str, str] = {}
     per: T.Dict[str, int] = {}
@@ -1975,7 +2467,7 @@ def r4_escape(ctx: RuleCtx) -> None:
         if n in imps and not imps[n].startswith('mesonbuild.'):
             raise Undecided(f'{n} is imported from {imps[n]}')
     nraise = 0
-    for q, fn in mod.funcs().items():
+    for q, fn in [(q0, nf(mod, q0)) for q0 in mod.funcs()]:
         for n in walk_no_nested(fn):
             if isinstance(n, ast.Raise):
                 nraise += 1
@@ -1991,10 +2483,10 @@ def r4_escape(ctx: RuleCtx) -> None:
                 ctx.require(name in ok_classes, f'{q}: raises {name}', mod, q, n, f'{q} raises {name or "<re-raise>"}; only MesonException may leave cfg parsing/evaluation')
     ctx.floor('raise statements in cfg.py', nraise, 5)
     # (2) _parse is entered only from parse (under the StopIteration handler) and from itself
-    parse = mod.func('parse')
-    inner = mod.func('_parse')
+    parse = nf(mod, 'parse')
+    inner = nf(mod, '_parse')
     callers: T.Dict[str, T.List[ast.Call]] = {}
-    for q, fn in mod.funcs().items():
+    for q, fn in [(q0, nf(mod, q0)) for q0 in mod.funcs()]:
         if q.startswith('_parse.'):
             continue
         for c in ast.walk(fn):
@@ -2147,7 +2639,7 @@ def r4_escape(ctx: RuleCtx) -> None:
                     rd.ast, f'after `{short(rd.ast, 60)}` the parse can continue to {where} without assertToken / a test of the token', rd.ast)
     ctx.floor('token reads in _parse', len(reads), 5)
     # (5) payload asserts of _parse are discharged by the lexer table: IDENTIFIER only with a truthy word, STRING with a slice of the input
-    lex = mod.func('lexer')
+    lex = nf(mod, 'lexer')
     raw = lex.args.args[0].arg
     for part, body in (('loop', [s for s in lex.body if isinstance(s, ast.For)][0].body), ('tail', lex.body[lex.body.index([s for s in lex.body if isinstance(s, ast.For)][0]) + 1:])):
         tab = tables.extract(lex, body=body, effects=eff, inline=False, name=f'lexer:{part}')
@@ -2176,7 +2668,7 @@ def r4_escape(ctx: RuleCtx) -> None:
         if {n.id for n in ast.walk(a.test) if isinstance(n, ast.Name)} != {'value'}:
             raise Undecided(f'_parse: assert on {short(a.test)}')
     # (6) eval_cfg: only cfg(...) is evaluated, on the text between the parentheses
-    ec = mod.func('eval_cfg')
+    ec = nf(mod, 'eval_cfg')
     t3 = tables.extract(ec, effects=eff, inline=False, name='eval_cfg')
     sw, ew = Atom('truth', ("ARG1.startswith('cfg(')",)), Atom('truth', ("ARG1.endswith(')')",))
     if not set(t3.atoms()) <= {sw, ew}:
